@@ -144,6 +144,10 @@ class ExonCorrector:
                 if right_site >= exon_after_end:
                     right_site = read_intron[1]
 
+                if left_site > right_site:
+                    # a very short intron must not be turned inside out by moving one of its sites only
+                    left_site, right_site = read_intron
+
                 corrected_introns.append((left_site, right_site))
         else:
             corrected_introns = read_introns
